@@ -38,6 +38,7 @@ RULE = ("each run = 10-40 seeded operations by 2-3 holders over <= 8 shared hand
 
 NAMES = ["BLACK", "RED", "GREEN", "YELLOW", "BLUE", "MAGENTA", "CYAN", "WHITE"]
 N_HANDLES = 8
+MAX_CELLS = 400      # texts are kept small: x.join(x) and x += x grow them geometrically
 ALPHA = "abcxyz0189 _-|ü<>^s\t"
 
 
@@ -170,6 +171,9 @@ def generate(rng, tier):
         elif r < 0.92:
             op = {"op": "eq", "a": rng.choice(sorted(live)),
                   "b": gen_operand(rng, live, ncolors) if rng.random() < 0.5 else {"h": rng.choice(sorted(live))}}
+        elif r < 0.935:
+            op = {"op": rng.choice(["iter", "join_text", "contains"]), "dst": dst, "a": rng.choice(sorted(live)),
+                  "b": rng.choice(sorted(live)), "i": rng.choice([0, 1, 2, -1])}
         elif r < 0.96:
             op = {"op": "alias", "dst": dst, "a": rng.choice(sorted(live))}
         elif r < 0.98:
@@ -178,7 +182,7 @@ def generate(rng, tier):
             op = {"op": "drop", "a": rng.choice(sorted(live))}
         op["by"] = by
         ops.append(op)
-        if "dst" in op:
+        if "dst" in op and op["op"] not in ("iter", "contains"):
             live.add(op["dst"])
         if op["op"] == "drop":
             live.discard(op["a"])
@@ -380,6 +384,8 @@ def apply(w, op):
             fault = None
         except BoomHit as b:
             fault = b
+        if len(out) > MAX_CELLS:
+            return
         parts = [w.real_operand(p) for p in op["parts"]]
         try:
             x = CHText(*parts)
@@ -416,6 +422,8 @@ def apply(w, op):
             left_r = w.real_operand(op["a"])
             right_r = w.real[op["b"]]
             recv = w.real[op["b"]]
+        if len(out) > MAX_CELLS:
+            return
         try:
             x = left_r + right_r
         except Exception as e:
@@ -435,6 +443,8 @@ def apply(w, op):
             fault = None
         except BoomHit as b:
             fault = b
+        if len(out) > MAX_CELLS:
+            return
         x = w.real[h]
         if "l" in op["b"] and w.list_contains_object(op["b"], x):
             # x += [.., x, ..]: whether the inner x means the value before or during the operation has no
@@ -483,6 +493,8 @@ def apply(w, op):
             if n:
                 out.extend(sep)
             w.model_operand(it, out)
+        if len(out) > MAX_CELLS:
+            return
         items = [w.real_operand(it) for it in op["items"]]
         try:
             x = w.real[op["sep"]].join(items)
@@ -614,6 +626,53 @@ def apply(w, op):
         if got is NotImplemented or bool(got) != want or bool(got2) != want:
             raise Violation("equality", "wrong-answer",
                             f"{str(w.real[op['a']])!r} == {str(rb)!r} gives {got} (!= gives {not got2}), model {want}")
+    elif k == "iter":
+        # a colored text used as an iterable behaves like a str: one item per visible character
+        if op["a"] not in w.real or w.model[op["a"]].kind != "T":
+            return
+        m = w.model[op["a"]]
+        try:
+            items = list(w.real[op["a"]])
+        except Exception as e:
+            raise Violation("text", f"iteration-raised-{type(e).__name__}", repr(e))
+        got = [tuple(sgr.parse_cells(str(x))) for x in items]
+        want = [(c,) for c in m.cells]
+        st["iter_ops"] = st.get("iter_ops", 0) + 1
+        if got != want:
+            raise Violation("text", "iteration-items",
+                            f"iterating a text of {len(m.cells)} characters gives {len(items)} items "
+                            f"{[str(x) for x in items][:6]!r}")
+    elif k == "join_text":
+        # sep.join(text) == sep.join(characters of text), as "-".join("abc") == "a-b-c"
+        if op["a"] not in w.real or op["b"] not in w.real or w.model[op["b"]].kind != "T":
+            return
+        sep = w.model[op["a"]].cells
+        out = []
+        for n, cell in enumerate(w.model[op["b"]].cells):
+            if n:
+                out.extend(sep)
+            out.append(cell)
+        if len(out) > MAX_CELLS:
+            return
+        try:
+            x = w.real[op["a"]].join(w.real[op["b"]])
+        except Exception as e:
+            raise Violation("text", f"join-raised-{type(e).__name__}", repr(e))
+        st["iter_ops"] = st.get("iter_ops", 0) + 1
+        w.store(op["dst"], x, MObj("T", out, "join"))
+    elif k == "contains":
+        if op["a"] not in w.real or w.model[op["a"]].kind != "T" or not w.model[op["a"]].cells:
+            return
+        m = w.model[op["a"]]
+        i = op["i"] % len(m.cells)
+        try:
+            ch = w.real[op["a"]][i]
+            got = ch in w.real[op["a"]]
+        except Exception as e:
+            raise Violation("text", f"contains-raised-{type(e).__name__}", repr(e))
+        st["iter_ops"] = st.get("iter_ops", 0) + 1
+        if got is not True:
+            raise Violation("text", "own-character-not-contained", f"text[{i}] in text gives {got!r}")
     elif k == "alias":
         if op["a"] not in w.real:
             return
